@@ -195,8 +195,10 @@ def run(tier, seed, replay=None):
     k = len(model_names)
     cmp_model = {"kind": "cmp", "names": [list(w) for w in model_names],
                  "table": [row[:k] for row in cmp_rec["table"][:k]], "n": k, "keeps": []}
+    cmp_model["same"] = [[a == b for b in model_names] for a in model_names]
     records = [cmp_model, {"kind": "cmponly", "names": [], "table": cmp_rec["table"],
-                           "n": len(names), "keeps": []}]
+                           "n": len(names), "keeps": [],
+                           "same": [[a == b for b in names] for a in names]}]
     meta = [("version_sort", model_names), ("version_sort-all", names)]
     # laws only (no transcription) for the names outside the model alphabet / bounds
     with Scratch("c11") as sc:
